@@ -58,6 +58,12 @@ func runC07(b *mon.B) {
 	perCfg := b.N(120, 900)
 	for ci := 0; ci < nCfg; ci++ {
 		sc := richConfig(r, 1+r.Intn(2))
+		if ci%4 == 3 {
+			// a SPAN scope whose span host is down: the request falls through to the START
+			// handler, once
+			sc.Cfg.Secrets[0] = refsrv.AsSpan(sc.Cfg.Secrets[0], refsrv.DeadSpanHost)
+			b.Class("config/span-scope-dead-host")
+		}
 		ref, err := refsrv.Start(sc.Cfg, refsrv.Options{ViaYAML: ci%2 == 0, Keys: sc.Keys})
 		if err != nil {
 			b.Inconclusive("configuration %d did not load: %v", ci, err)
